@@ -175,6 +175,9 @@ func (tw *TumblingWindow) Add(data any) {
 			return // unplaceable event: drop instead of fake wall-clock time
 		}
 		if tw.watermark != nil {
+			if tw.watermark.IsFarFuture(eventTime) {
+				return // corrupt timestamp: never changes a result (nor pins the first window)
+			}
 			tw.watermark.UpdateEventTime(eventTime)
 		}
 	} else if !tsOk {
